@@ -93,8 +93,20 @@ LoginDiff(e, o) == IF e.op = "login" /\ e.reply # o.reply
                      THEN {IF e.reply = "ok" THEN "accepted" ELSE "refused"} ELSE {}
 
 Diffs(m, e, o) == [can |-> CanDiff(m, e.can) \cup LoginDiff(e, o), list |-> ListDiff(m, e.list), files |-> FilesDiff(m, e.files, e.pws),
-                   files2 |-> FilesDiff(m, e.files2, e.pws), reload |-> ReloadDiff(m, e.reload, e.pws), got |-> GotDiff(e, o)]
-Clean(d) == d.can = {} /\ d.list = {} /\ d.files = {} /\ d.files2 = {} /\ d.reload = {} /\ d.got = {}
+                   files2 |-> FilesDiff(m, e.files2, e.pws), reload |-> ReloadDiff(m, e.reload, e.pws), got |-> GotDiff(e, o),
+                   round |-> {}]
+Clean(d) == d.can = {} /\ d.list = {} /\ d.files = {} /\ d.files2 = {} /\ d.reload = {} /\ d.got = {} /\ d.round = {}
+
+(* ---- concurrent rounds ("storm" lines): reqs = the requests K administrators fired at the same moment, then the
+   four views at quiescence.  The outcome depends on the interleaving, so the model does not predict it: the account
+   map is READ from the reloaded-manager view (an account's password = the one password of the round's pool its
+   hash verifies), all four views must show that same map (they agree with each other) and the map must satisfy
+   Accounts!RoundFacts relative to the map before the round; the model then continues from it. *)
+ObsPw(r) == IF r.pwkind = "bcrypt" /\ Len(r.ver) = 1 THEN r.ver[1] ELSE <<0, 0, 0, 0>>   \* (no password of any script)
+ObsMap(rl) == [lg \in {rl.recs[i].login : i \in DOMAIN rl.recs} |->
+                 LET i == CHOOSE j \in DOMAIN rl.recs : rl.recs[j].login = lg
+                 IN [name |-> rl.recs[i].name, pw |-> ObsPw(rl.recs[i]), acc |-> ToSet(rl.recs[i].acc)]]
+FixReq(q) == IF "acc" \in DOMAIN q THEN [q EXCEPT !.acc = ToSet(q.acc)] ELSE q
 
 ModelRecs(m) == {[login |-> lg, name |-> m[lg].name, pw |-> m[lg].pw, acc |-> m[lg].acc] : lg \in DOMAIN m}
 
@@ -124,7 +136,7 @@ World ==
 
 StepEv ==
   LET e == Fix(Log[l]) IN
-  /\ e.op # "world"
+  /\ e.op \notin {"world", "storm"}
   /\ IF ~Guard(e)
        THEN /\ (e.run \notin drifted => Report("DRIFT", e, [what |-> "step not well-formed for the model"]))
             /\ drifted' = drifted \cup {e.run}
@@ -144,8 +156,28 @@ StepEv ==
                                         /\ drifted' = drifted \cup {e.run}
                                    ELSE UNCHANGED drifted
 
+StormEv ==
+  LET e == Log[l]
+      reqs == [i \in DOMAIN e.reqs |-> FixReq(e.reqs[i])]
+      obs == ObsMap(e.reload)
+  IN
+  /\ e.op = "storm"
+  /\ out' = Out("ok")
+  /\ IF \E i \in DOMAIN reqs : ~IsReq(reqs[i])
+       THEN /\ (e.run \notin drifted => Report("DRIFT", e, [what |-> "round request not well-formed for the model"]))
+            /\ drifted' = drifted \cup {e.run}
+            /\ UNCHANGED <<mem, bad>>
+       ELSE /\ mem' = obs
+            /\ UNCHANGED drifted
+            /\ IF e.run \in bad THEN UNCHANGED bad
+               ELSE LET d == [Diffs(obs, e, Out("ok")) EXCEPT !.round = RoundFacts(mem, reqs, obs)] IN
+                    IF Clean(d) THEN UNCHANGED bad
+                    ELSE /\ Report("VIOL", e, [diffs |-> d, expected |-> ModelRecs(obs), before |-> ModelRecs(mem),
+                                               effren |-> {}, expReply |-> "any"])
+                         /\ bad' = bad \cup {e.run}
+
 Next == /\ l <= Len(Log)
-        /\ (World \/ StepEv)
+        /\ (World \/ StepEv \/ StormEv)
         /\ l' = l + 1
         /\ TLCSet(1, l')
 
